@@ -252,4 +252,29 @@ theorem bookAfter_sep (dupTol : ℚ) (steps : List (ℚ × ℚ × List (Nat × P
       intro s hs y hy; rw [h2]; exact hidx s (List.mem_cons_of_mem _ hs) y hy)
     exact ⟨r1, by rw [← h2]; exact r2⟩
 
+theorem recStep_prefix (tPrev tNext dupTol : ℚ) (b : Book ℚ) (x : Nat × Probe ℚ) :
+    ∃ more, (recStep tPrev tNext dupTol b x).events = b.events ++ more := by
+  unfold recStep
+  split
+  · exact ⟨[], by simp⟩
+  · split
+    · exact ⟨[(x.1, x.2.root)], rfl⟩
+    · split
+      · exact ⟨[(x.1, x.2.root)], rfl⟩
+      · exact ⟨[], by simp⟩
+
+/-- recording only appends: events recorded earlier keep their place -/
+theorem record_prefix (tPrev tNext dupTol : ℚ) (l : List (Nat × Probe ℚ)) : ∀ (b : Book ℚ),
+    ∃ more, (record tPrev tNext dupTol b l).events = b.events ++ more := by
+  intro b
+  rw [record_eq_foldl]
+  induction l generalizing b with
+  | nil => exact ⟨[], by simp⟩
+  | cons x xs ih =>
+    obtain ⟨m1, h1⟩ := recStep_prefix tPrev tNext dupTol b x
+    obtain ⟨m2, h2⟩ := ih (recStep tPrev tNext dupTol b x)
+    exact ⟨m1 ++ m2, by simp only [List.foldl_cons]; rw [h2, h1, List.append_assoc]⟩
+
+theorem record_nil (tPrev tNext dupTol : ℚ) (b : Book ℚ) : record tPrev tNext dupTol b [] = b := rfl
+
 end DVP.Record
